@@ -247,4 +247,127 @@ theorem F64.ofU64_exact (n : Nat) (hn : n < 2 ^ 53) : F64.mag (F64.ofU64 n) = n 
       rw [Nat.one_mul, Nat.mul_assoc, ← this])
   simpa using this
 
+
+/-! ## binary32 counterparts and `toF32` -/
+
+/-- the unsigned pattern `roundNE32` computes -/
+def rmag32 (num den : Nat) : Nat := roundMag b32 (num * 2 ^ 149) den
+
+theorem roundNE32_eq' (neg : Bool) (num den : Nat) :
+    roundNE32 neg num den =
+      if rmag32 num den < b32.infBits then some (bits32 neg (rmag32 num den)) else none :=
+  roundNE32_eq neg num den
+
+/-- `roundNE32` depends only on the rational `num/den` -/
+theorem roundNE32_congr (neg : Bool) (num den num' den' : Nat) (hd : 0 < den) (hd' : 0 < den')
+    (h : num * den' = num' * den) : roundNE32 neg num den = roundNE32 neg num' den' := by
+  have : rmag32 num den = rmag32 num' den' := by
+    unfold rmag32
+    apply roundMag_congr b32 _ _ _ _ hd hd'
+    calc num * 2 ^ 149 * den' = num * den' * 2 ^ 149 := by ring
+      _ = num' * den * 2 ^ 149 := by rw [h]
+      _ = num' * 2 ^ 149 * den := by ring
+  rw [roundNE32_eq', roundNE32_eq', this]
+
+theorem bits32_finite (neg : Bool) (u : Nat) (hu : u < b32.infBits) :
+    F32.isFinite (bits32 neg u) = true := by
+  rw [F32.isFinite_iff, bits32_absBits neg u hu]; exact hu
+
+theorem bits32_mag (neg : Bool) (u : Nat) (hu : u < b32.infBits) :
+    F32.mag (bits32 neg u) = magOfBits b32 u := by
+  unfold F32.mag; rw [bits32_absBits neg u hu]
+
+/-- the pieces of a successful rounding -/
+theorem roundNE32_some (neg : Bool) (num den : Nat) (r : UInt32) (h : roundNE32 neg num den = some r) :
+    rmag32 num den < b32.infBits ∧ r = bits32 neg (rmag32 num den) := by
+  rw [roundNE32_eq'] at h
+  by_cases hu : rmag32 num den < b32.infBits
+  · rw [if_pos hu] at h; exact ⟨hu, (Option.some.inj h).symm⟩
+  · rw [if_neg hu] at h; cases h
+
+theorem roundNE32_none_iff (neg : Bool) (num den : Nat) (hden : 0 < den) :
+    roundNE32 neg num den = none ↔ Overflows32 num den := by
+  have := roundNE32_correct neg num den hden
+  constructor
+  · intro h
+    by_contra hno
+    obtain ⟨r, hr, _⟩ := this.1 hno
+    rw [h] at hr; cases hr
+  · exact this.2
+
+/-- `neg` flips the sign and keeps everything else -/
+theorem F32.neg_toNat (b : UInt32) :
+    (F32.neg b).toNat = if b.toNat < 2 ^ 31 then b.toNat + 2 ^ 31 else b.toNat - 2 ^ 31 := by
+  unfold F32.neg
+  have := b.toNat_lt
+  rw [UInt32.toNat_add]
+  have : (0x80000000 : UInt32).toNat = 2 ^ 31 := by decide
+  rw [this]
+  split <;> omega
+
+theorem F32.neg_absBits (b : UInt32) : F32.absBits (F32.neg b) = F32.absBits b := by
+  unfold F32.absBits; rw [F32.neg_toNat]; have := b.toNat_lt; split <;> omega
+
+theorem F32.neg_sign (b : UInt32) : F32.sign (F32.neg b) = !F32.sign b := by
+  unfold F32.sign; rw [F32.neg_toNat]; have := b.toNat_lt
+  split
+  · have h1 : (b.toNat + 2 ^ 31) / 2 ^ 31 = 1 := by omega
+    have h2 : b.toNat / 2 ^ 31 = 0 := by omega
+    rw [h1, h2]; rfl
+  · have h1 : (b.toNat - 2 ^ 31) / 2 ^ 31 = 0 := by omega
+    have h2 : b.toNat / 2 ^ 31 = 1 := by omega
+    rw [h1, h2]; rfl
+
+theorem F32.neg_finite (b : UInt32) : F32.isFinite (F32.neg b) = F32.isFinite b := by
+  unfold F32.isFinite; rw [F32.expField_eq, F32.expField_eq, F32.neg_absBits]
+
+theorem F32.neg_mag (b : UInt32) : F32.mag (F32.neg b) = F32.mag b := by
+  unfold F32.mag; rw [F32.neg_absBits]
+
+theorem F32.neg_bits32 (neg : Bool) (u : Nat) (hu : u < b32.infBits) :
+    F32.neg (bits32 neg u) = bits32 (!neg) u := by
+  apply UInt32.toNat_inj.1
+  rw [F32.neg_toNat, bits32_toNat neg u hu, bits32_toNat (!neg) u hu]
+  rw [b32_infBits] at hu
+  cases neg
+  · simp only [Bool.false_eq_true, if_false, Bool.not_false, if_true]
+    rw [if_pos (by omega)]; omega
+  · simp only [if_true, Bool.not_true, Bool.false_eq_true, if_false]
+    rw [if_neg (by omega)]; omega
+
+theorem roundNE32_neg (neg : Bool) (num den : Nat) :
+    (roundNE32 neg num den).map F32.neg = roundNE32 (!neg) num den := by
+  rw [roundNE32_eq', roundNE32_eq']
+  by_cases hu : rmag32 num den < b32.infBits
+  · rw [if_pos hu, if_pos hu]; simp [F32.neg_bits32 neg _ hu]
+  · rw [if_neg hu, if_neg hu]; rfl
+
+
+/-- an integer below `2^53` reaches f32 the same way through f64 as directly -/
+theorem toF32_ofU64 (n : Nat) (hn : n < 2 ^ 53) : F64.toF32 (F64.ofU64 n) = F32.ofU64 n := by
+  obtain ⟨_, hfin, hsign⟩ := F64.ofU64_finite n (by omega)
+  have hmag := F64.ofU64_exact n hn
+  unfold F64.toF32
+  rw [F64.finite_not_nan _ hfin, F64.finite_not_inf _ hfin, hsign, hmag]
+  simp only [Bool.false_eq_true, if_false]
+  unfold F32.ofU64 F32.roundOrInf
+  rw [roundNE32_congr false (n * 2 ^ 1074) (2 ^ 1074) n 1 (two_pow_pos' _) (by decide) (by ring)]
+
+theorem toF32_neg_ofU64 (n : Nat) (hn : n < 2 ^ 53) :
+    F64.toF32 (F64.neg (F64.ofU64 n)) = F32.neg (F32.ofU64 n) := by
+  obtain ⟨_, hfin, hsign⟩ := F64.ofU64_finite n (by omega)
+  have hmag := F64.ofU64_exact n hn
+  have hfin' : F64.isFinite (F64.neg (F64.ofU64 n)) = true := by rw [F64.neg_finite]; exact hfin
+  unfold F64.toF32
+  rw [F64.finite_not_nan _ hfin', F64.finite_not_inf _ hfin', F64.neg_sign, hsign, F64.neg_mag, hmag]
+  simp only [Bool.false_eq_true, if_false, Bool.not_false]
+  unfold F32.ofU64 F32.roundOrInf
+  rw [roundNE32_congr true (n * 2 ^ 1074) (2 ^ 1074) n 1 (two_pow_pos' _) (by decide) (by ring)]
+  have hneg := roundNE32_neg false n 1
+  rw [show (!false) = true from rfl] at hneg
+  rw [← hneg]
+  cases h : roundNE32 false n 1 with
+  | some r => rfl
+  | none => decide
+
 end SJ.Proofs.Ieee
